@@ -36,13 +36,19 @@ def run(ck, models, tier):
                         ck.info("%s: a failing path (%s) leaves the mapping made at %s behind (not claimed)" % (rn, v.note, where(al[-1])))
                     continue
                 pg = pushed_guards(v, g.adt)
+                # a path on which the allocation result is null is infeasible: the allocator returns only successful mappings
+                # (C11 R11.1) and neither mmap nor VirtualAlloc yields address 0
+                if al and any(c.op == "eq" and isinstance(al[-1].ret, Int) and al[-1].ret.e in c.args and any(
+                        isinstance(x, E) and x.is_const() and x.val == 0 for x in c.args) for c in guards.true_conds(v.decisions)):
+                    ck.info("%s: path assuming a null allocation result skipped (infeasible under C11 R11.1)" % rn)
+                    continue
                 if len(pg) != 1:
                     ck.ob("R12.4", "%s/guard-stored" % rn, tm.target, False, "normal path stores %d guards" % len(pg))
                     continue
                 n += 1
                 pev, gv, cont = pg[0]
                 if tm.arch == "arm" and not g.jit_ptr:
-                    rest = [x for x in fields if x not in (g.addr, g.saved, g.len)]
+                    rest = [x for x in fields if (x,) not in (g.addr, g.saved, g.len)]
                     vals = [gv.field(x) for x in rest]
                     ok = not al and all(isinstance(x, Int) and x.is_const() and x.cval() == 0 for x in vals)
                     ck.ob("R12.1", "%s/guard-owns-mapping" % rn, tm.target, ok,
@@ -78,6 +84,11 @@ def run(ck, models, tier):
                 if c.op in ("eq", "ne") and any(self_field(x) == g.jit_ptr for x in c.args if isinstance(x, E)) and any(isinstance(x, E) and x.is_const() and x.val == 0 for x in c.args):
                     isnull = (d[1] == 1) if c.op == "eq" else (d[1] == 0)
                     nullv = isnull
+                elif c.op == "discr" and g.jit_ptr:
+                    sp_ = self_field(c.args[0])
+                    if sp_ and tuple(g.jit_ptr[:len(sp_)]) == tuple(sp_):
+                        # the mapping lives in an Option: variant 0 (None) = nothing mapped
+                        nullv = d[1] == 0 or (isinstance(d[1], tuple) and d[1][0] == "otherwise" and 1 in d[1][1])
             if tm.arch == "arm" and not g.jit_ptr:
                 ck.ob("R12.2", "drop/no-release-on-arm", tm.target, len(frees) <= 1, "destructor releases %d mapping(s)" % len(frees))
                 continue
